@@ -104,8 +104,37 @@ def generate(seed, tier):
                                   "inits": K.frac_enc(inits), "params": K.frac_enc(params), "N": 3,
                                   "features": ["file:" + os.path.basename(rel), f"deg:{deg}", f"k:{k}"] + (["mutated-constants"] if mutated else []),
                                   "mode": "inv" if (fi + rep + deg) % 3 else "loop"})
+    # variants with RANDOM initial values of the candidate variables (E(x0**2) != E(x0)**2 matters for invariants of degree >= 2)
+    rinit = []
+    for fi, (rel, cand, degs) in enumerate(specs):
+        if not cand or max(degs) < 2 and rel.find("markov") < 0:
+            continue
+        path = os.path.join(REPO, rel)
+        if not os.path.exists(path):
+            continue
+        text = open(path).read()
+        cs = K.harness_seed(seed, ID + "-rinit", fi)
+        rng = random.Random(cs)
+        draws = "\n".join(f"{v} = " + rng.choice(["Bernoulli(1/2)", "DiscreteUniform(0, 2)", "1 {1/3} 3", "Bernoulli(1/4)"]) for v in cand[: rng.choice([1, 2])])
+        body_start = text.find("while")
+        text2 = text[:body_start] + draws + "\n" + text[body_start:]
+        try:
+            prog = parse_program(text2)
+        except ParseError:
+            continue
+        pv = program_variables(prog)
+        inits = {v: Fraction(rng.randint(-6, 6), rng.choice([1, 2, 3])) or Fraction(1, 2) for v in pv}
+        params = {s_: Fraction(rng.randint(1, 9), 10) for s_ in program_symbols(prog)}
+        for deg in sorted(set(degs) | {2}):
+            if deg > 3:
+                continue
+            rinit.append({"id": f"{os.path.basename(rel)}-rinit-d{deg}", "text": text2, "ast": prog.to_json(), "cand": cand, "deg": deg, "k": None,
+                          "inits": K.frac_enc(inits), "params": K.frac_enc(params), "N": 3,
+                          "features": ["file:" + os.path.basename(rel), f"deg:{deg}", "random-initial-values"], "mode": "inv"})
     rng0.shuffle(cases)
-    return cases[: (26 if tier == "quick" else 400)]
+    rng0.shuffle(rinit)
+    nr = 6 if tier == "quick" else 60
+    return rinit[:nr] + cases[: (26 if tier == "quick" else 400)]
 
 
 def worker_init(tier):
